@@ -232,6 +232,21 @@ structure ResATClaims where
 
 def ResATClaims.none : ResATClaims := { present := false }
 
+/-- the error slot of the key-set recorder of `getTokenIDAndSubjectForRevocation` (pkg/op/token_revocation.go revocationKeySet):
+    it is set when the KEYS could not be obtained from the storage.  In this model the storage answers, so it never is. -/
+structure ResKeyErr where
+  msg : String := ""
+  isSet : Bool := false
+  deriving Inhabited
+instance : Go.Nilable ResKeyErr := ⟨fun e => !e.isSet⟩
+instance : Coe ResKeyErr String := ⟨fun e => e.msg⟩
+
+/-- `new(revocationKeySet)`: hands the verifier on unchanged and holds no error -/
+structure ResRevocationKeys where
+  err : ResKeyErr := {}
+  deriving Inhabited
+def ResRevocationKeys.verifier (_k : ResRevocationKeys) (v : Verifier) : Verifier := v
+
 /-- the body of a success response that carries nothing (`MarshalJSON(w, nil)`, `NewResponse(nil)`) -/
 inductive ResBody | empty
   deriving DecidableEq, Repr, Inhabited
